@@ -1017,9 +1017,9 @@ fn exec_cmd(
 						vicut,
 						ctx
 					);
-				}
-				if !ctx.args.keep_mode {
-					vicut.set_normal_mode();
+					if !ctx.args.keep_mode {
+						vicut.set_normal_mode();
+					}
 				}
 			}
 			vicut.ascend(); // leave scope
